@@ -1378,11 +1378,19 @@ func (m *RadioTap) DecodeFromBytes(data []byte, df gopacket.DecodeFeedback) erro
 	vendorNamespace := false
 	for _, present := range m.Present {
 		if radioTapNamespace {
-			rValues, newOffset := RadioTapNamespace{}.decodeRadioTapNamespace(data, offset, present)
+			rValues, newOffset, err := RadioTapNamespace{}.decodeRadioTapNamespace(data, offset, present)
+			if err != nil {
+				df.SetTruncated()
+				return err
+			}
 			m.RadioTapValues = append(m.RadioTapValues, rValues)
 			offset = newOffset
 		} else if vendorNamespace {
-			vValues, newOffset := VendorNamespace{}.decodeVendorNamespace(data, offset, present)
+			vValues, newOffset, err := VendorNamespace{}.decodeVendorNamespace(data, offset, present)
+			if err != nil {
+				df.SetTruncated()
+				return err
+			}
 			m.VendorValues = append(m.VendorValues, vValues)
 			offset = newOffset
 		} else {
@@ -1440,89 +1448,155 @@ func (m *RadioTap) DecodeFromBytes(data []byte, df gopacket.DecodeFeedback) erro
 	return nil
 }
 
-func (m RadioTapNamespace) decodeRadioTapNamespace(data []byte, offset uint16, present RadioTapPresent) (RadioTapNamespace, uint16) {
+// errRadioTapFieldBeyondData is returned when a field announced by a present
+// bitmap does not fit into the data.
+var errRadioTapFieldBeyondData = errors.New("RadioTap field extends beyond data")
+
+// radioTapHas reports whether data holds n bytes at offset.
+func radioTapHas(data []byte, offset uint16, n int) bool {
+	return int(offset)+n <= len(data)
+}
+
+func (m RadioTapNamespace) decodeRadioTapNamespace(data []byte, offset uint16, present RadioTapPresent) (RadioTapNamespace, uint16, error) {
 	if present.TSFT() {
 		offset += align(offset, 8)
+		if !radioTapHas(data, offset, 8) {
+			return m, offset, errRadioTapFieldBeyondData
+		}
 		m.TSFT = binary.LittleEndian.Uint64(data[offset : offset+8])
 		offset += 8
 	}
 	if present.Flags() {
+		if !radioTapHas(data, offset, 1) {
+			return m, offset, errRadioTapFieldBeyondData
+		}
 		m.Flags = RadioTapFlags(data[offset])
 		offset++
 	}
 	if present.Rate() {
+		if !radioTapHas(data, offset, 1) {
+			return m, offset, errRadioTapFieldBeyondData
+		}
 		m.Rate = RadioTapRate(data[offset])
 		offset++
 	}
 	if present.Channel() {
 		offset += align(offset, 2)
+		if !radioTapHas(data, offset, 4) {
+			return m, offset, errRadioTapFieldBeyondData
+		}
 		m.ChannelFrequency = RadioTapChannelFrequency(binary.LittleEndian.Uint16(data[offset : offset+2]))
 		offset += 2
 		m.ChannelFlags = RadioTapChannelFlags(binary.LittleEndian.Uint16(data[offset : offset+2]))
 		offset += 2
 	}
 	if present.FHSS() {
+		if !radioTapHas(data, offset, 2) {
+			return m, offset, errRadioTapFieldBeyondData
+		}
 		m.FHSS = binary.LittleEndian.Uint16(data[offset : offset+2])
 		offset += 2
 	}
 	if present.DBMAntennaSignal() {
+		if !radioTapHas(data, offset, 1) {
+			return m, offset, errRadioTapFieldBeyondData
+		}
 		m.DBMAntennaSignal = int8(data[offset])
 		offset++
 	}
 	if present.DBMAntennaNoise() {
+		if !radioTapHas(data, offset, 1) {
+			return m, offset, errRadioTapFieldBeyondData
+		}
 		m.DBMAntennaNoise = int8(data[offset])
 		offset++
 	}
 	if present.LockQuality() {
 		offset += align(offset, 2)
+		if !radioTapHas(data, offset, 2) {
+			return m, offset, errRadioTapFieldBeyondData
+		}
 		m.LockQuality = binary.LittleEndian.Uint16(data[offset : offset+2])
 		offset += 2
 	}
 	if present.TxAttenuation() {
 		offset += align(offset, 2)
+		if !radioTapHas(data, offset, 2) {
+			return m, offset, errRadioTapFieldBeyondData
+		}
 		m.TxAttenuation = binary.LittleEndian.Uint16(data[offset : offset+2])
 		offset += 2
 	}
 	if present.DBTxAttenuation() {
 		offset += align(offset, 2)
+		if !radioTapHas(data, offset, 2) {
+			return m, offset, errRadioTapFieldBeyondData
+		}
 		m.DBTxAttenuation = binary.LittleEndian.Uint16(data[offset : offset+2])
 		offset += 2
 	}
 	if present.DBMTxPower() {
+		if !radioTapHas(data, offset, 1) {
+			return m, offset, errRadioTapFieldBeyondData
+		}
 		m.DBMTxPower = int8(data[offset])
 		offset++
 	}
 	if present.Antenna() {
+		if !radioTapHas(data, offset, 1) {
+			return m, offset, errRadioTapFieldBeyondData
+		}
 		m.Antenna = uint8(data[offset])
 		offset++
 	}
 	if present.DBAntennaSignal() {
+		if !radioTapHas(data, offset, 1) {
+			return m, offset, errRadioTapFieldBeyondData
+		}
 		m.DBAntennaSignal = uint8(data[offset])
 		offset++
 	}
 	if present.DBAntennaNoise() {
+		if !radioTapHas(data, offset, 1) {
+			return m, offset, errRadioTapFieldBeyondData
+		}
 		m.DBAntennaNoise = uint8(data[offset])
 		offset++
 	}
 	if present.RxFlags() {
 		offset += align(offset, 2)
+		if !radioTapHas(data, offset, 2) {
+			return m, offset, errRadioTapFieldBeyondData
+		}
 		m.RxFlags = RadioTapRxFlags(binary.LittleEndian.Uint16(data[offset:]))
 		offset += 2
 	}
 	if present.TxFlags() {
 		offset += align(offset, 2)
+		if !radioTapHas(data, offset, 2) {
+			return m, offset, errRadioTapFieldBeyondData
+		}
 		m.TxFlags = RadioTapTxFlags(binary.LittleEndian.Uint16(data[offset:]))
 		offset += 2
 	}
 	if present.RtsRetries() {
+		if !radioTapHas(data, offset, 1) {
+			return m, offset, errRadioTapFieldBeyondData
+		}
 		m.RtsRetries = uint8(data[offset])
 		offset++
 	}
 	if present.DataRetries() {
+		if !radioTapHas(data, offset, 1) {
+			return m, offset, errRadioTapFieldBeyondData
+		}
 		m.DataRetries = uint8(data[offset])
 		offset++
 	}
 	if present.MCS() {
+		if !radioTapHas(data, offset, 3) {
+			return m, offset, errRadioTapFieldBeyondData
+		}
 		m.MCS = RadioTapMCS{
 			RadioTapMCSKnown(data[offset]),
 			RadioTapMCSFlags(data[offset+1]),
@@ -1532,6 +1606,9 @@ func (m RadioTapNamespace) decodeRadioTapNamespace(data []byte, offset uint16, p
 	}
 	if present.AMPDUStatus() {
 		offset += align(offset, 4)
+		if !radioTapHas(data, offset, 8) {
+			return m, offset, errRadioTapFieldBeyondData
+		}
 		m.AMPDUStatus = RadioTapAMPDUStatus{
 			Reference: binary.LittleEndian.Uint32(data[offset:]),
 			Flags:     RadioTapAMPDUStatusFlags(binary.LittleEndian.Uint16(data[offset+4:])),
@@ -1541,6 +1618,9 @@ func (m RadioTapNamespace) decodeRadioTapNamespace(data []byte, offset uint16, p
 	}
 	if present.VHT() {
 		offset += align(offset, 2)
+		if !radioTapHas(data, offset, 12) {
+			return m, offset, errRadioTapFieldBeyondData
+		}
 		m.VHT = RadioTapVHT{
 			Known:     RadioTapVHTKnown(binary.LittleEndian.Uint16(data[offset:])),
 			Flags:     RadioTapVHTFlags(data[offset+2]),
@@ -1563,6 +1643,9 @@ func (m RadioTapNamespace) decodeRadioTapNamespace(data []byte, offset uint16, p
 	}
 	if present.HE() {
 		offset += align(offset, 2)
+		if !radioTapHas(data, offset, 12) {
+			return m, offset, errRadioTapFieldBeyondData
+		}
 		m.HE = RadiotapHE{
 			Data1: RadiotapHEData1(binary.LittleEndian.Uint16(data[offset:])),
 			Data2: RadiotapHEData2(binary.LittleEndian.Uint16(data[offset+2:])),
@@ -1574,12 +1657,15 @@ func (m RadioTapNamespace) decodeRadioTapNamespace(data []byte, offset uint16, p
 		offset += 12
 	}
 
-	return m, offset
+	return m, offset, nil
 }
 
-func (v VendorNamespace) decodeVendorNamespace(data []byte, offset uint16, present RadioTapPresent) (VendorNamespace, uint16) {
+func (v VendorNamespace) decodeVendorNamespace(data []byte, offset uint16, present RadioTapPresent) (VendorNamespace, uint16, error) {
 	offset += align(offset, 2)
 
+	if !radioTapHas(data, offset, 8) {
+		return v, offset, errRadioTapFieldBeyondData
+	}
 	v.OUI = data[offset : offset+3]
 	offset += 4
 
@@ -1589,10 +1675,13 @@ func (v VendorNamespace) decodeVendorNamespace(data []byte, offset uint16, prese
 	v.SkipLength = binary.LittleEndian.Uint16(data[offset:])
 	offset += 2
 
+	if !radioTapHas(data, offset, int(v.SkipLength)) {
+		return v, offset, errRadioTapFieldBeyondData
+	}
 	v.Contents = data[offset : offset+v.SkipLength]
 	offset += v.SkipLength
 
-	return v, offset
+	return v, offset, nil
 }
 
 func (m RadioTap) SerializeTo(b gopacket.SerializeBuffer, opts gopacket.SerializeOptions) error {
